@@ -106,20 +106,95 @@ func (x *FnIndex) ResolveAddr(v ssa.Value) ssa.Value {
 // StoresTo lists the stores into a cell (an Alloc), including those made by closures.
 func (x *FnIndex) StoresTo(addr ssa.Value) []*ssa.Store { return x.stores[x.ResolveAddr(addr)] }
 
-// Origin looks through loads of single-assignment cells (captured parameters,
-// `rr := r` copies, named temporaries), type changes and trivial phis.
+// reachingStores lists the stores to cell `al` that may reach the load `ld`
+// (both in the same function); zero reports that the cell's initial (zero)
+// value may reach it too.
+func (x *FnIndex) reachingStores(ld ssa.Instruction, al *ssa.Alloc) (defs []*ssa.Store, zero bool) {
+	type pt struct {
+		b *ssa.BasicBlock
+		i int
+	}
+	seen := map[*ssa.BasicBlock]bool{}
+	work := []pt{{ld.Block(), instrIdx(ld)}}
+	for len(work) > 0 {
+		p := work[len(work)-1]
+		work = work[:len(work)-1]
+		hit := false
+		for i := p.i - 1; i >= 0; i-- {
+			in := p.b.Instrs[i]
+			if st, ok := in.(*ssa.Store); ok && x.ResolveAddr(st.Addr) == ssa.Value(al) {
+				dup := false
+				for _, d := range defs {
+					if d == st {
+						dup = true
+					}
+				}
+				if !dup {
+					defs = append(defs, st)
+				}
+				hit = true
+				break
+			}
+			if in == ssa.Instruction(al) {
+				zero = true
+				hit = true
+				break
+			}
+		}
+		if hit {
+			continue
+		}
+		if len(p.b.Preds) == 0 {
+			zero = true
+			continue
+		}
+		for _, q := range p.b.Preds {
+			if !seen[q] {
+				seen[q] = true
+				work = append(work, pt{q, len(q.Instrs)})
+			}
+		}
+	}
+	return
+}
+
+// closureWrites reports whether a function literal other than fn stores to the cell.
+func (x *FnIndex) storesOutside(al *ssa.Alloc, fn *ssa.Function) bool {
+	for _, st := range x.stores[al] {
+		if st.Parent() != fn {
+			return true
+		}
+	}
+	return false
+}
+
+// Origin looks through loads of local variable cells: a cell assigned once
+// (captured parameters, `rr := r` copies, temporaries) resolves to the stored
+// value; a cell assigned several times resolves when exactly one store of the
+// same function reaches the load and no function literal writes the cell.
 func (x *FnIndex) Origin(v ssa.Value) ssa.Value {
-	for i := 0; i < 32; i++ {
+	for i := 0; i < 48; i++ {
 		switch t := v.(type) {
 		case *ssa.UnOp:
 			if t.Op != token.MUL {
 				return v
 			}
 			a := x.ResolveAddr(t.X)
-			if al, ok := a.(*ssa.Alloc); ok {
-				st := x.stores[al]
-				if len(st) == 1 {
-					v = st[0].Val
+			al, ok := a.(*ssa.Alloc)
+			if !ok {
+				return v
+			}
+			st := x.stores[al]
+			if len(st) == 1 && al.Parent() != t.Parent() {
+				// a cell captured by this function literal and assigned once
+				// by the enclosing function (`rr := r`, spilled parameters)
+				v = st[0].Val
+				continue
+			}
+			if len(st) >= 1 && al.Parent() == t.Parent() && !x.storesOutside(al, t.Parent()) {
+				defs, zero := x.reachingStores(t, al)
+				if len(defs) == 1 && !zero {
+					v = defs[0].Val
 					continue
 				}
 			}
@@ -745,8 +820,8 @@ func (l *Loop) exitTargets() []*ssa.BasicBlock {
 	return out
 }
 
-// rangedSlice: if v is the element loaded inside a `for _, e := range S` loop
-// (SSA: *(&S[i]) with i the loop's index phi), return S and the loop.
+// rangedSlice: if v is the element of a `for _, e := range S` loop (naive SSA:
+// *(&S[*rangeindex])), return S and the loop.
 func (x *FnIndex) rangedSlice(v ssa.Value) (ssa.Value, *Loop, bool) {
 	v = x.Origin(v)
 	u, ok := v.(*ssa.UnOp)
@@ -757,27 +832,52 @@ func (x *FnIndex) rangedSlice(v ssa.Value) (ssa.Value, *Loop, bool) {
 	if !ok {
 		return nil, nil, false
 	}
-	phi, ok := ia.Index.(*ssa.Phi)
-	if !ok {
-		// rangeindex: index is BinOp(phi+1)
-		if bo, ok2 := ia.Index.(*ssa.BinOp); ok2 && bo.Op == token.ADD {
-			if p, ok3 := bo.X.(*ssa.Phi); ok3 {
-				phi = p
-				ok = true
-			}
-		}
-		if !ok {
-			return nil, nil, false
-		}
+	il, ok := ia.Index.(*ssa.UnOp)
+	if !ok || il.Op != token.MUL {
+		return nil, nil, false
+	}
+	al, ok := il.X.(*ssa.Alloc)
+	if !ok || al.Comment != "rangeindex" {
+		return nil, nil, false
 	}
 	l := x.InnermostLoop(ia.Block())
 	if l == nil {
 		return nil, nil, false
 	}
-	if !l.Blocks[phi.Block()] {
+	// the index cell must be advanced in this loop's header
+	adv := false
+	for _, st := range x.stores[al] {
+		if st.Block() == l.Head {
+			adv = true
+		}
+	}
+	if !adv {
 		return nil, nil, false
 	}
 	return ia.X, l, true
+}
+
+// rangedMap: if v is the value variable of `for _, e := range M` over a map
+// (naive SSA: extract (next it) #2 with it = range M), return M and the loop.
+func (x *FnIndex) rangedMap(v ssa.Value) (ssa.Value, *Loop, bool) {
+	v = x.Origin(v)
+	ex, ok := v.(*ssa.Extract)
+	if !ok {
+		return nil, nil, false
+	}
+	nx, ok := ex.Tuple.(*ssa.Next)
+	if !ok {
+		return nil, nil, false
+	}
+	rg, ok := nx.Iter.(*ssa.Range)
+	if !ok {
+		return nil, nil, false
+	}
+	l := x.InnermostLoop(nx.Block())
+	if l == nil {
+		return nil, nil, false
+	}
+	return rg.X, l, true
 }
 
 // describeGuards renders guards for reports.
@@ -791,4 +891,177 @@ func (x *FnIndex) describeGuards(gs []Guard) string {
 		s = append(s, d)
 	}
 	return strings.Join(s, " && ")
+}
+
+// sameValue: structural equality of two values after Origin: identical values,
+// equal constants, loads of the same field/element of equal bases, the same
+// operator over equal operands, len of equal values.  Memory between the two
+// reads is assumed unchanged (the callers compare reads of rule slices and of
+// immutable rule entities within one function).
+func (x *FnIndex) sameValue(a, b ssa.Value) bool { return x.sameValueD(a, b, 0) }
+
+func (x *FnIndex) sameValueD(a, b ssa.Value, d int) bool {
+	if d > 10 {
+		return false
+	}
+	a, b = x.Origin(a), x.Origin(b)
+	if a == b {
+		return true
+	}
+	switch ta := a.(type) {
+	case *ssa.Const:
+		tb, ok := b.(*ssa.Const)
+		if !ok {
+			return false
+		}
+		if ta.Value == nil || tb.Value == nil {
+			return ta.Value == nil && tb.Value == nil && types.Identical(ta.Type(), tb.Type())
+		}
+		return constant.Compare(ta.Value, token.EQL, tb.Value)
+	case *ssa.UnOp:
+		tb, ok := b.(*ssa.UnOp)
+		if !ok || ta.Op != tb.Op {
+			return false
+		}
+		if ta.Op != token.MUL {
+			return x.sameValueD(ta.X, tb.X, d+1)
+		}
+		return x.sameAddr(x.ResolveAddr(ta.X), x.ResolveAddr(tb.X), d+1)
+	case *ssa.BinOp:
+		tb, ok := b.(*ssa.BinOp)
+		return ok && ta.Op == tb.Op && x.sameValueD(ta.X, tb.X, d+1) && x.sameValueD(ta.Y, tb.Y, d+1)
+	case *ssa.Call:
+		tb, ok := b.(*ssa.Call)
+		if !ok {
+			return false
+		}
+		aa, oka := builtinCall(ta, "len")
+		bb, okb := builtinCall(tb, "len")
+		return oka && okb && x.sameValueD(aa[0], bb[0], d+1)
+	case *ssa.Slice:
+		tb, ok := b.(*ssa.Slice)
+		if !ok {
+			return false
+		}
+		eq := func(p, q ssa.Value) bool {
+			if p == nil || q == nil {
+				return p == nil && q == nil
+			}
+			return x.sameValueD(p, q, d+1)
+		}
+		return x.sameValueD(ta.X, tb.X, d+1) && eq(ta.Low, tb.Low) && eq(ta.High, tb.High) && eq(ta.Max, tb.Max)
+	case *ssa.Field:
+		tb, ok := b.(*ssa.Field)
+		return ok && ta.Field == tb.Field && x.sameValueD(ta.X, tb.X, d+1)
+	case *ssa.Convert:
+		tb, ok := b.(*ssa.Convert)
+		return ok && types.Identical(ta.Type(), tb.Type()) && x.sameValueD(ta.X, tb.X, d+1)
+	}
+	return false
+}
+
+func (x *FnIndex) sameAddr(a, b ssa.Value, d int) bool {
+	if a == b {
+		return true
+	}
+	switch ta := a.(type) {
+	case *ssa.FieldAddr:
+		tb, ok := b.(*ssa.FieldAddr)
+		return ok && ta.Field == tb.Field && types.Identical(ta.X.Type(), tb.X.Type()) && x.sameValueD(ta.X, tb.X, d+1)
+	case *ssa.IndexAddr:
+		tb, ok := b.(*ssa.IndexAddr)
+		return ok && x.sameValueD(ta.X, tb.X, d+1) && x.sameValueD(ta.Index, tb.Index, d+1)
+	}
+	return false
+}
+
+// PVal is one value a variable read may yield.
+type PVal struct {
+	V       ssa.Value // nil: the zero value of the cell
+	Outside bool      // stored by another function (a deferred or spawned literal)
+	Store   *ssa.Store
+}
+
+// PossibleValues lists what a value may be when it is a read of a local
+// variable cell: the stores of the same function that reach the read, the
+// zero value if it can reach, and every store made by function literals.
+// Any other value yields itself.
+func (x *FnIndex) PossibleValues(v ssa.Value) []PVal {
+	return x.possibleValues(v, 0)
+}
+
+func (x *FnIndex) possibleValues(v ssa.Value, depth int) []PVal {
+	v = x.Origin(v)
+	u, ok := v.(*ssa.UnOp)
+	if !ok || u.Op != token.MUL || depth > 6 {
+		return []PVal{{V: v}}
+	}
+	al, ok := x.ResolveAddr(u.X).(*ssa.Alloc)
+	if !ok {
+		return []PVal{{V: v}}
+	}
+	var out []PVal
+	if al.Parent() == u.Parent() {
+		defs, zero := x.reachingStores(u, al)
+		for _, d := range defs {
+			for _, pv := range x.possibleValues(d.Val, depth+1) {
+				pv.Store = d
+				out = append(out, pv)
+			}
+		}
+		if zero {
+			out = append(out, PVal{})
+		}
+		for _, st := range x.stores[al] {
+			if st.Parent() != u.Parent() {
+				out = append(out, PVal{V: x.Origin(st.Val), Outside: true, Store: st})
+			}
+		}
+		return out
+	}
+	for _, st := range x.stores[al] {
+		out = append(out, PVal{V: x.Origin(st.Val), Outside: st.Parent() != u.Parent(), Store: st})
+	}
+	if len(out) == 0 {
+		out = append(out, PVal{})
+	}
+	return out
+}
+
+func isConstNil(v ssa.Value) bool {
+	c, ok := v.(*ssa.Const)
+	return ok && c.Value == nil
+}
+
+func constBool(v ssa.Value) (bool, bool) {
+	c, ok := v.(*ssa.Const)
+	if !ok || c.Value == nil || c.Value.Kind() != constant.Bool {
+		return false, false
+	}
+	return constant.BoolVal(c.Value), true
+}
+
+// knownNil: at block b, value v (an error or pointer) is known to be nil
+// because a dominating branch tested it.
+func (x *FnIndex) knownNil(v ssa.Value, b *ssa.BasicBlock) bool {
+	for _, g := range x.GuardsOf(b) {
+		if s, neq, ok := nilCheck(g.Cond); ok && x.sameValue(s, v) {
+			if (neq && !g.Pol) || (!neq && g.Pol) {
+				return true
+			}
+		}
+	}
+	return false
+}
+
+// knownNonNil: the dual.
+func (x *FnIndex) knownNonNil(v ssa.Value, b *ssa.BasicBlock) bool {
+	for _, g := range x.GuardsOf(b) {
+		if s, neq, ok := nilCheck(g.Cond); ok && x.sameValue(s, v) {
+			if (neq && g.Pol) || (!neq && !g.Pol) {
+				return true
+			}
+		}
+	}
+	return false
 }
